@@ -58,7 +58,11 @@ func c19Body(p c19Params) func() explore.SchedOutcome {
 		vrt.BeginSetup()
 		board0 := c19Text(p.Size, "B")
 		agreement := c19Text(p.Size, "A")
-		wd := world.New(world.Cfg{Board: board0, Agreement: agreement, Accounts: []world.Acct{
+		delim := ""
+		if p.Scenario == "delimiter" {
+			delim = []string{"----------", "100% ~~~ %s"}[p.Size%2]
+		}
+		wd := world.New(world.Cfg{Board: board0, Agreement: agreement, NewsDelimiter: delim, Accounts: []world.Acct{
 			{Login: "guest", Name: "Guest"},
 			{Login: "u", Name: "u", Password: "pw", Access: world.Without(world.AllAccess, ref.PNoAgreement)},
 		}})
@@ -170,6 +174,38 @@ func c19Body(p c19Params) func() explore.SchedOutcome {
 				}
 				obs = append(obs, "final="+describe(final, cands))
 			}
+		case "delimiter":
+			// the documented NewsDelimiter option replaces the line between two posts; the post keeps its header and text
+			a, b := connect(1), connect(2)
+			vrt.EndSetup()
+			pid := a.Req(ref.TOldPostNews, ref.FS(ref.FData, "hello board"))
+			vrt.Settle(10 * time.Second)
+			want := strings.ReplaceAll(fmt.Sprintf("From %s (%s):\n\n%s\n\n", "n1", now.Format("Jan02 15:04"), "hello board")+delim+"\r", "\n", "\r")
+			if r := a.Reply(pid); r == nil || r.Err != 0 {
+				fail("post-refused", fmt.Sprint(r))
+			}
+			b.Poll()
+			n := 0
+			for _, t := range b.Inbox {
+				if t.Type == ref.TNewMsg {
+					n++
+					if got := fieldStr(&t, ref.FData); got != want {
+						fail("announced-post-not-in-post-format", fmt.Sprintf("delimiter %q: announced %q, want %q", delim, clip(got, 200), want))
+					}
+				}
+			}
+			if n != 1 {
+				fail("user-not-notified-of-post", fmt.Sprintf("%d notices", n))
+			}
+			id := b.Req(ref.TGetMsgs)
+			world.Quiet()
+			if got := fieldStr(b.Reply(id), ref.FData); got != want+board0 {
+				fail("post-not-kept-in-post-format", fmt.Sprintf("delimiter %q: board starts %q, want %q", delim, clip(got, 200), want))
+			}
+			if disk, _ := os.ReadFile(filepath.Join(wd.ConfigDir, "MessageBoard.txt")); string(disk) != want+board0 {
+				fail("file-differs-from-board", fmt.Sprintf("delimiter %q: file starts %q", delim, clip(string(disk), 200)))
+			}
+			obs = append(obs, "delimiter")
 		case "bigpost":
 			// a post so large that its announcement (template + text) does not fit one 65,535-byte field: it is
 			// announced whole or refused, and nobody's stream is damaged
@@ -325,7 +361,7 @@ func runC19(w *explore.Worker) {
 	for _, sz := range []int{0, 1, 511, 512, 513, 2000, 40000, 65000} {
 		jobs = append(jobs, job{c19Params{"sweep", sz}, 0})
 	}
-	jobs = append(jobs, job{c19Params{"post-fault", 100}, 0})
+	jobs = append(jobs, job{c19Params{"post-fault", 100}, 0}, job{c19Params{"delimiter", 100}, 0}, job{c19Params{"delimiter", 101}, 0})
 	if !w.Thorough {
 		jobs = append(jobs, job{c19Params{"readers+poster", 40000}, 1}, job{c19Params{"logins", 40000}, 1})
 	}
